@@ -93,6 +93,8 @@ func c15Names(c *Check, P string) {
 }
 
 func runC15(c *Check) {
+	LostReceiverStores(c, "C15.CFG", "components/cqrs")
+	DefaultsApplied(c, "C15.CFG", "components/cqrs")
 	P := "C15"
 	c15Names(c, P)
 	// the codecs the processors and buses rely on (decided as C16.O5): Unmarshal always runs the decoder
@@ -145,6 +147,89 @@ func runC15(c *Check) {
 	c15NameKey(c, P)
 	c15Ctx(c, P)
 	c15GenericHandlers(c, P)
+	c15Registration(c, P)
+}
+
+// c15Registration: what a processor registers on the router — the subscribe topic is what the configured
+// GenerateSubscribeTopic answered, the subscriber what SubscriberConstructor built, the function the processor's own
+// handler closure; followed through the parameters of a shared registration helper to each of its call sites.
+func c15Registration(c *Check, P string) {
+	const rel = "components/cqrs"
+	sp := c.P.Pkg(rel)
+	if sp == nil {
+		return
+	}
+	sites, _ := pkgSites(sp)
+	type actual struct {
+		v  ssa.Value
+		at ssa.CallInstruction
+	}
+	// resolve v (used in fn) to the values it stands for in the functions that compute it
+	var resolve func(v ssa.Value, fn *ssa.Function, at ssa.CallInstruction, d int) []actual
+	resolve = func(v ssa.Value, fn *ssa.Function, at ssa.CallInstruction, d int) []actual {
+		if d < 3 {
+			for i, prm := range fn.Params {
+				if AllOrigins(v, IsParam(prm)) && len(sites[fn]) > 0 {
+					var out []actual
+					for _, s := range sites[fn] {
+						if i < len(s.Common().Args) {
+							out = append(out, resolve(s.Common().Args[i], s.Parent(), s, d+1)...)
+						}
+					}
+					return out
+				}
+			}
+		}
+		return []actual{{v, at}}
+	}
+	fromConfigCall := func(field string) func(ssa.Value) bool {
+		return func(v ssa.Value) bool {
+			return AllOrigins(v, func(o ssa.Value) bool {
+				var call *ssa.Call
+				switch x := o.(type) {
+				case *ssa.Call:
+					call = x
+				case *ssa.Extract:
+					if cc, ok := x.Tuple.(*ssa.Call); ok && x.Index == 0 {
+						call = cc
+					}
+				}
+				if call == nil || call.Call.IsInvoke() || CalleeFn(&call.Call) != nil {
+					return false
+				}
+				f := LoadedField(firstOrigin(call.Call.Value))
+				return f != nil && f.Name() == field
+			})
+		}
+	}
+	n := 0
+	for _, fn := range c.P.SrcFuncs(rel) {
+		for _, ad := range CallsTo(fn, nAddNoPub) {
+			n++
+			for _, a := range resolve(Arg(ad, 1), fn, ad, 0) {
+				c.Report(fromConfigCall("GenerateSubscribeTopic")(a.v), P+".O1", "REGISTERED-TOPIC", a.at.Parent(), a.at.Pos(), "subscribe topic of the processor's router handler", "the topic the handler subscribes to is the answer of the configured GenerateSubscribeTopic (not the handler's or the group's name, nor another string that happens to be in scope)")
+			}
+			for _, a := range resolve(Arg(ad, 2), fn, ad, 0) {
+				c.Report(fromConfigCall("SubscriberConstructor")(a.v), P+".O1", "REGISTERED-SUBSCRIBER", a.at.Parent(), a.at.Pos(), "subscriber of the processor's router handler", "the subscriber is the one the configured SubscriberConstructor built for this handler")
+			}
+			for _, a := range resolve(Arg(ad, 3), fn, ad, 0) {
+				okF := AllOrigins(a.v, func(o ssa.Value) bool {
+					e, ok := o.(*ssa.Extract)
+					if !ok || e.Index != 0 {
+						return false
+					}
+					cl, ok := e.Tuple.(*ssa.Call)
+					if !ok {
+						return false
+					}
+					cal := CalleeFn(&cl.Call)
+					return cal != nil && cal.Pkg == sp && cal.Signature.Results().Len() == 2 && cal.Signature.Results().At(0).Type().String() == msgPkg+".NoPublishHandlerFunc"
+				})
+				c.Report(okF, P+".O1", "REGISTERED-FUNCTION", a.at.Parent(), a.at.Pos(), "function of the processor's router handler", "the registered function is the closure the processor built for this handler (or group)")
+			}
+		}
+	}
+	c.Floor(P+".O1", "AddNoPublisherHandler registrations in package cqrs", n, 2)
 }
 
 // c15GenericHandlers: the handler adapters built by NewCommandHandler /
@@ -526,12 +611,19 @@ func c15Processor(c *Check, P string, outer, C *ssa.Function, kind string) {
 	}
 
 	// O7 original message in context
+	c15OriginalMessageCtx(c, P+".O7", C, kind)
+}
+
+// c15OriginalMessageCtx: the processor closure puts the consumed message into the context it hands to the handler
+// and to the message itself (request-reply's OnHandle hook finds the command message there). Also decided under C18.
+func c15OriginalMessageCtx(c *Check, id string, C *ssa.Function, kind string) {
+	isMsg := FromParam(ParamsOfType(C, tMessagePtr)[0])
 	cw := CallsTo(C, nCtxWithOrig)
-	if c.Floor(P+".O7", kind+": CtxWithOriginalMessage call", len(cw), 1) {
+	if c.Floor(id, kind+": CtxWithOriginalMessage call", len(cw), 1) {
 		for _, w := range cw {
 			a0, ok := firstOrigin(w.Common().Args[0]).(*ssa.Call)
 			okA := ok && CalleeName(a0) == nContext && isMsg(Receiver(a0)) && isMsg(w.Common().Args[1])
-			c.Report(okA, P+".O7", "ORIGINAL-MESSAGE-CTX", C, w.Pos(), kind+" ctx", "the handler context is CtxWithOriginalMessage(msg.Context(), msg) of the consumed message")
+			c.Report(okA, id, "ORIGINAL-MESSAGE-CTX", C, w.Pos(), kind+" ctx", "the handler context is CtxWithOriginalMessage(msg.Context(), msg) of the consumed message")
 		}
 		isCtx := func(v ssa.Value) bool { return AllOrigins(v, ResultOfAny(cw, 0)) }
 		// default handle closure passes that ctx to Handle
@@ -540,18 +632,18 @@ func c15Processor(c *Check, P string, outer, C *ssa.Function, kind string) {
 			for _, ic := range CallsIn(f) {
 				if ic.Common().IsInvoke() && ic.Common().Method.Name() == "Handle" {
 					n++
-					c.Report(isCtx(ic.Common().Args[0]), P+".O7", "HANDLE-CTX", f, ic.Pos(), kind+" Handle", "Handle receives the context that carries the original message")
+					c.Report(isCtx(ic.Common().Args[0]), id, "HANDLE-CTX", f, ic.Pos(), kind+" Handle", "Handle receives the context that carries the original message")
 				}
 			}
 		}
-		c.Floor(P+".O7", kind+": Handle invocation in the default handle closure", n, 1)
+		c.Floor(id, kind+": Handle invocation in the default handle closure", n, 1)
 		ns := 0
 		for _, s := range CallsTo(C, nSetContext) {
 			if isMsg(Receiver(s)) && isCtx(Arg(s, 0)) {
 				ns++
 			}
 		}
-		c.Report(ns >= 1, P+".O7", "MESSAGE-CTX", C, C.Pos(), kind+" SetContext", "the consumed message's context is set to the same context (OnHandle hooks see it)")
+		c.Report(ns >= 1, id, "MESSAGE-CTX", C, C.Pos(), kind+" SetContext", "the consumed message's context is set to the same context (OnHandle hooks see it)")
 	}
 }
 
